@@ -99,12 +99,15 @@ CLAIMS = {
     },
     'C12': {
         'level': 'model_checking',
-        'text': 'ReadPipeline.tla models the goroutine pipeline of a read request (scan, map/limit/fix stages, exporter, handler over unbuffered channels) with the database failing '
-                'at any row and the context cancelled at any time; TLC checks, with fairness, that every goroutine terminates and the request is answered for all pipeline shapes. '
-                'TLC enumerates (endpoint x query class x parameter x parameter class x database fault) from the driver schema (17 Loki/Prometheus/Tempo endpoints); each case plus '
-                'seeded random/mutated query strings goes to the REAL reader router over fakesql/chsql with preloaded data, scripted database faults and client aborts, in a child '
-                'process: response within 6 s, child alive (crash = observation with its panic frame), goroutine census in reader code after the request.',
-        'note': 'parameter classes exhaustive in thorough, seeded subset in quick; query strings beyond the classes sampled; Pyroscope POST endpoints not in the sweep yet.',
+        'text': 'ReadPipeline.tla models the goroutine pipeline of a read request (scan, map/limit/fix and HOLDING stages that re-order their messages, exporter with the switch '
+                'ExportDrainsOnError, handler, over unbuffered channels) with the database failing at any row and the context cancelled at any time; TLC checks, with fairness, that '
+                'every goroutine terminates and the request is answered for all pipeline shapes, and refutes the variant whose exporter does not drain. TLC enumerates (endpoint x '
+                'query class x parameter x parameter class x database fault) from the driver schema (26 Loki/Prometheus/Tempo/Pyroscope endpoints incl. the POST querier routes); '
+                'each case plus seeded random/mutated query strings goes to the REAL reader router over fakesql/chsql with preloaded data (streams of several getter batches, one '
+                'with more series than an in-process aggregation accepts), scripted database faults (query error, row error first/mid, slow rows, a row source far larger than any '
+                'limit), client aborts with a ResponseWriter that then fails with EPIPE, in child processes running in parallel: response within 6 s (a timeout must reproduce on a '
+                'fresh child), child alive (crash = observation with its panic frame), goroutine census in reader code after the request.',
+        'note': 'parameter classes exhaustive in thorough, seeded subset in quick; query strings beyond the classes sampled; row faults on holding pipelines are repeated (map order decides); the live tail (hijacked websocket) is driven by the extra check X01, which is part of the thorough tier.',
         'technique': 'TLA+ pipeline model checking (liveness) + TLC-enumerated parameter/fault cases replayed into the real reader router in a child process with goroutine census',
         'design_ref': '5/C12',
     },
@@ -115,7 +118,7 @@ CLAIMS = {
                 '(thorough 6) x all batch splits incl. empty batches x all fingerprint patterns incl. fingerprint 0. Every enumerated input is replayed into the real '
                 'QueryRange/QueryInstant/Tail (batches delivered through the planner plugin seam), label/series services, Tempo and Prometheus controllers; the strictly parsed body is '
                 'compared with the rows (exact timestamps, ParseFloat(text)==value bitwise, hostile strings) and its token string with the spec\'s.',
-        'note': 'full-stack seeded cases go through fakesql + the real getter batching; invalid UTF-8 passed through by jsoniter is counted, not judged; Tail websocket framing not covered.',
+        'note': 'full-stack seeded cases go through fakesql + the real getter batching; invalid UTF-8 passed through by jsoniter is counted, not judged; the websocket framing of the live tail is covered by the extra check X01.',
         'technique': 'TLA+/TLC exhaustive enumeration with case export + replay into the real writers + token-string conformance',
         'design_ref': '5/C15',
     },
